@@ -142,6 +142,47 @@ func c11GenSpec(r *Rng, dur, dup bool) []int64 {
 	return spec
 }
 
+// c11Twin returns another duplicate-free specification with the same length and the same
+// wrapped sum of bit patterns as spec (nil when there is none of the simple shape tried):
+// value bounds: two non-zero bounds negated (each sign flip changes the sum by 2^63);
+// duration bounds: one bound moved up and another down by the same amount.
+func c11Twin(dur bool, spec []int64) []int64 {
+	has := func(l []int64, v int64) bool {
+		for _, x := range l {
+			if x == v {
+				return true
+			}
+		}
+		return false
+	}
+	for i := 0; i < len(spec); i++ {
+		for j := i + 1; j < len(spec); j++ {
+			tw := append([]int64(nil), spec...)
+			if dur {
+				a, b := spec[i], spec[j]
+				if a >= math.MaxInt64-8 || b <= math.MinInt64+8 {
+					continue
+				}
+				tw[i], tw[j] = a+7, b-7
+			} else {
+				fa, fb := math.Float64frombits(uint64(spec[i])), math.Float64frombits(uint64(spec[j]))
+				if fa == 0 || fb == 0 || fa != fa || fb != fb {
+					continue
+				}
+				tw[i], tw[j] = fbits(-fa), fbits(-fb)
+			}
+			if tw[i] == tw[j] || has(spec, tw[i]) || has(spec, tw[j]) {
+				continue
+			}
+			if dur && (tw[i] == math.MaxInt64 || tw[j] == math.MaxInt64) {
+				continue
+			}
+			return tw
+		}
+	}
+	return nil
+}
+
 func c11GenSample(r *Rng, dur bool, spec []int64) int64 {
 	if len(spec) > 0 && r.Chance(60) {
 		b := spec[r.Intn(len(spec))]
@@ -180,13 +221,26 @@ func c11Gen(r *Rng, i int, stream string) c11Case {
 	var specs []sp
 	for j := r.Range(1, 3); j > 0; j-- {
 		d := r.Chance(40)
-		specs = append(specs, sp{d, c11GenSpec(r, d, stream == "dup")})
+		spec := c11GenSpec(r, d, stream == "dup")
+		specs = append(specs, sp{d, spec})
+		// a different specification of the same length whose bounds add up to the same
+		// total (the bucket cache is keyed by a commutative sum over the bounds)
+		if tw := c11Twin(d, spec); tw != nil && r.Chance(60) {
+			specs = append(specs, sp{d, tw})
+		}
 	}
 	path := func() []c11Step {
 		if r.Chance(80) {
 			return paths[r.Intn(len(paths))]
 		}
 		return c11GenPath(r)
+	}
+	// the scope Snapshot() is called on: the test scope itself or any scope derived from it
+	recv := func() []c11Step {
+		if r.Chance(35) {
+			return nil
+		}
+		return path()
 	}
 	name := func() B {
 		if r.Chance(70) {
@@ -227,10 +281,10 @@ func c11Gen(r *Rng, i int, stream string) c11Case {
 			}
 			c.Ops = append(c.Ops, c11Op{Op: "close", P: p})
 		default:
-			c.Ops = append(c.Ops, c11Op{Op: "snap"})
+			c.Ops = append(c.Ops, c11Op{Op: "snap", P: recv()})
 		}
 	}
-	c.Ops = append(c.Ops, c11Op{Op: "snap"})
+	c.Ops = append(c.Ops, c11Op{Op: "snap", P: recv()})
 	return c
 }
 
@@ -616,7 +670,8 @@ func c11OpEv(o *c11Op) Ev {
 	case "close":
 		return Ev{K: 46, I: pi, S: s}
 	}
-	return Ev{K: 47}
+	// the receiver path of a snapshot is informative only: the model's Snapshot has no receiver
+	return Ev{K: 47, I: pi, S: s}
 }
 
 type c11Taken struct {
@@ -647,8 +702,30 @@ func c11Run(c *c11Case) (in, obs []Ev, pred, fail string) {
 			obs = append(obs, Ev{K: 98})
 		}
 	}()
-	snapshot := func(at int) {
-		s := ts.Snapshot()
+	// snapshot takes the snapshot through the scope the receiver path denotes (the test
+	// scope itself for the empty path). The result must not depend on the receiver: it is
+	// compared with the same reference tally and the same model snapshot. A path that
+	// passes through a closed scope denotes the package-level no-op scope, which is not
+	// derived from this test scope: the root is used instead. A closed scope as the
+	// receiver itself is meaningful (test scopes survive Close) and is used.
+	snapshot := func(at int, recv []c11Step) {
+		var via tally.TestScope = ts
+		if _, live := rf.resolve(recv); live && len(recv) > 0 {
+			var sc tally.Scope = ts
+			for _, st := range recv {
+				if st.T {
+					sc = sc.Tagged(tagsOf(st.M))
+				} else {
+					sc = sc.SubScope(string(st.N))
+				}
+			}
+			if t, ok := sc.(tally.TestScope); ok && sc != tally.NoopScope {
+				via = t
+			} else {
+				setFail("derived_scope_is_a_test_scope", fmt.Sprintf("the scope derived for the snapshot after op %d is not a TestScope", at))
+			}
+		}
+		s := via.Snapshot()
 		got, keyErr := c11Project(s)
 		if keyErr != "" {
 			setFail("entry_key_is_KeyForPrefixedStringMap", keyErr)
@@ -669,7 +746,7 @@ func c11Run(c *c11Case) (in, obs []Ev, pred, fail string) {
 		o := &c.Ops[i]
 		in = append(in, c11OpEv(o))
 		if o.Op == "snap" {
-			snapshot(i)
+			snapshot(i, o.P)
 			continue
 		}
 		var sc tally.Scope = ts
@@ -901,13 +978,17 @@ func c11Witnesses() []c11Case {
 }
 
 func c11Class(c *c11Case) string {
-	closes, snaps, depth := 0, 0, 0
+	closes, snaps, depth, derived := 0, 0, 0, 0
 	for _, o := range c.Ops {
 		switch o.Op {
 		case "close":
 			closes++
 		case "snap":
 			snaps++
+			if len(o.P) > 0 {
+				derived++
+			}
+			continue
 		}
 		if len(o.P) > depth {
 			depth = len(o.P)
@@ -917,13 +998,17 @@ func c11Class(c *c11Case) string {
 	if closes > 0 {
 		cl = "with-close"
 	}
-	return fmt.Sprintf("%s/shards=%d/depth=%d/%s", c.Stream, c.Shards, depth, cl)
+	via := "snap-via-root"
+	if derived > 0 {
+		via = "snap-via-derived"
+	}
+	return fmt.Sprintf("%s/shards=%d/depth=%d/%s/%s", c.Stream, c.Shards, depth, cl, via)
 }
 
 func init() {
 	props["C11"] = func(ctx *Ctx) {
 		ctx.Header("SnapshotCorr")
-		ctx.Res.Rule = "case = (registry shard count, root prefix and tags, history of record / get / Close / Snapshot operations addressed by derivation paths); generated from the seed; non-trivial = at least one snapshot with at least two entries; distinct by history hash. Streams dup / delim / dot replay the known findings; conc = snapshots concurrent with recording (bounds only)"
+		ctx.Res.Rule = "case = (registry shard count, root prefix and tags, history of record / get / Close / Snapshot operations addressed by derivation paths, Snapshot being called on the test scope or on any scope derived from it); generated from the seed; non-trivial = at least one snapshot with at least two entries; distinct by history hash. Streams dup / delim / dot replay the known findings; conc = snapshots concurrent with recording (bounds only)"
 		one := func(c *c11Case) {
 			if c.Stream == "conc" {
 				c11Conc(ctx, c)
